@@ -29,6 +29,9 @@ type PipelineArgs struct {
 	// ScrollSize > 0: append what newQueryProcessorHelper appends for a paged request: head(from+size) → scroller(from)
 	ScrollFrom int `json:"scrollFrom,omitempty"`
 	ScrollSize int `json:"scrollSize,omitempty"`
+	// SparseBatchCols: a column that no row of a batch carries is left out of that batch altogether (as when the batch
+	// comes from a segment that does not have the column), instead of being delivered as a column of nulls
+	SparseBatchCols bool `json:"sparseBatchCols,omitempty"`
 }
 
 type tableStreamer struct {
@@ -37,6 +40,7 @@ type tableStreamer struct {
 	pos     int
 	eofWith bool
 	qid     uint64
+	sparse  bool
 }
 
 func encl(v interface{}) sutils.CValueEnclosure {
@@ -66,6 +70,17 @@ func (t *tableStreamer) build(rows []map[string]interface{}) (*iqr.IQR, error) {
 	q := iqr.NewIQR(t.qid)
 	kv := map[string][]sutils.CValueEnclosure{}
 	for _, c := range t.cols {
+		if t.sparse && len(rows) > 0 {
+			has := false
+			for _, r := range rows {
+				if r[c] != nil {
+					has = true
+				}
+			}
+			if !has {
+				continue
+			}
+		}
 		vals := make([]sutils.CValueEnclosure, len(rows)) // fresh slices for every delivery: processors mutate them
 		for i, r := range rows {
 			vals[i] = encl(r[c])
@@ -120,7 +135,7 @@ func pipelineOp(raw json.RawMessage) (interface{}, error) {
 				if i < len(a.Streams) {
 					b = a.Streams[i]
 				}
-				out = append(out, &tableStreamer{cols: a.Cols, batches: b, eofWith: a.EOFWithData, qid: qid})
+				out = append(out, &tableStreamer{cols: a.Cols, batches: b, eofWith: a.EOFWithData, qid: qid, sparse: a.SparseBatchCols})
 			}
 			return out
 		})
@@ -141,7 +156,7 @@ func pipelineOp(raw json.RawMessage) (interface{}, error) {
 		}
 		var cs []*processor.CachedStream
 		for _, b := range streams {
-			cs = append(cs, processor.NewCachedStream(&tableStreamer{cols: a.Cols, batches: b, eofWith: a.EOFWithData, qid: qid}))
+			cs = append(cs, processor.NewCachedStream(&tableStreamer{cols: a.Cols, batches: b, eofWith: a.EOFWithData, qid: qid, sparse: a.SparseBatchCols}))
 		}
 		dps[0].SetStreams(cs)
 		for i := 1; i < len(dps); i++ {
